@@ -365,6 +365,11 @@ class DiscretizedSpace(TensorSpace):
                 inp, self.domain, out_dtype=self.dtype,
             )
             sampled = point_collocation(func, self.meshgrid, **kwargs)
+            if any(np.may_share_memory(sampled, vec)
+                   for vec in self.meshgrid):
+                # E.g. `lambda x: x` in 1d returns the grid coordinates
+                # themselves, the element must not write into those
+                sampled = np.array(sampled, copy=True)
             return self.element_type(
                 self, self.tspace.element(sampled, order=order)
             )
